@@ -17,6 +17,7 @@ import (
 	"fmt"
 	"io"
 	"log"
+	"net/http"
 	"os"
 	"path/filepath"
 	"sort"
@@ -37,6 +38,19 @@ type croltOp struct {
 	Id      string `json:"id,omitempty"`
 	Sched   string `json:"sched,omitempty"`
 	N       int64  `json:"n,omitempty"`
+	// Slow (add): the job's HTTP request takes 200 ms (virtual) instead of
+	// failing at once, so that other requests can arrive while the firing
+	// loop is inside the job.
+	Slow bool `json:"slow,omitempty"`
+}
+
+// croltSlowRT answers every request after 200 ms of virtual time (no network).
+type croltSlowRT struct{}
+
+func (croltSlowRT) RoundTrip(req *http.Request) (*http.Response, error) {
+	time.Sleep(200 * time.Millisecond)
+	return &http.Response{StatusCode: 200, Status: "200 OK", Proto: "HTTP/1.1", ProtoMajor: 1, ProtoMinor: 1,
+		Header: http.Header{}, Body: io.NopCloser(strings.NewReader("ok")), Request: req}, nil
 }
 
 type croltCase struct {
@@ -54,10 +68,13 @@ func genCrolt(t *rapid.T) croltCase {
 		l := fmt.Sprintf("op%d", i)
 		acct := rapid.SampledFrom([]string{"a1", "a2", "b7"}).Draw(t, l+".account")
 		id := rapid.SampledFrom([]string{"j1", "j2", "j3"}).Draw(t, l+".id")
-		switch rapid.SampledFrom([]string{"add", "add", "add", "add", "delete", "delete", "deleteAccount", "work", "work", "work", "sleep", "sleep", "sleep", "reopen"}).Draw(t, l+".kind") {
+		switch rapid.SampledFrom([]string{"add", "add", "add", "add", "delete", "delete", "deleteAccount", "work", "work", "work", "sleep", "sleep", "sleep", "reopen", "deleteDuringWork", "deleteDuringWork"}).Draw(t, l+".kind") {
+		case "deleteDuringWork":
+			// a Delete that arrives while the firing loop is at work
+			c.Ops = append(c.Ops, croltOp{K: "deleteDuringWork", Account: acct, Id: id, N: rapid.SampledFrom([]int64{1e6, 50e6, 150e6, 250e6}).Draw(t, l+".after")})
 		case "add":
 			s := rapid.SampledFrom([]string{"300ms", "500ms", "1s", "1500ms", "2500ms", "0s", "150ms", "* * * * * * *", "*/2 * * * * * *"}).Draw(t, l+".sched")
-			c.Ops = append(c.Ops, croltOp{K: "add", Account: acct, Id: id, Sched: s})
+			c.Ops = append(c.Ops, croltOp{K: "add", Account: acct, Id: id, Sched: s, Slow: rapid.IntRange(0, 2).Draw(t, l+".slow") == 0})
 		case "delete":
 			c.Ops = append(c.Ops, croltOp{K: "delete", Account: acct, Id: id})
 		case "deleteAccount":
@@ -166,6 +183,7 @@ func runCrolt(c croltCase) *vlib.Outcome {
 		return o
 	}
 	log.SetOutput(io.Discard)
+	http.DefaultClient.Transport = croltSlowRT{}
 	// start on a 10 s boundary plus the offset
 	n0 := time.Now()
 	time.Sleep(n0.Truncate(10*time.Second).Add(10*time.Second).Sub(n0) + time.Duration(c.Offset%int64(time.Second)))
@@ -201,6 +219,7 @@ func runCrolt(c croltCase) *vlib.Outcome {
 	deletedBeforeDue, reopenPending := false, false
 
 	// one pass of the firing loop over every partition
+	var concurrentDelete *croltOp // set by deleteDuringWork for one pass
 	workPass := func(when string) (fired int) {
 		before, _, err := croltSnapshot(cr)
 		if err != nil {
@@ -208,18 +227,40 @@ func runCrolt(c croltCase) *vlib.Outcome {
 			return
 		}
 		T := time.Now()
-		for p := 0; p < cr.Partitions; p++ {
-			if err := cr.DB.Update(cr.work(strconv.Itoa(p))); err != nil {
-				o.Fail("CROLT_WORK_ERROR", "%s: work(%d) failed: %v", when, p, err)
-				return
+		passDone := make(chan error, 1)
+		go func() {
+			for p := 0; p < cr.Partitions; p++ {
+				if err := cr.DB.Update(cr.work(strconv.Itoa(p))); err != nil {
+					passDone <- fmt.Errorf("work(%d) failed: %v", p, err)
+					return
+				}
+			}
+			passDone <- nil
+		}()
+		skip := ""
+		if x := concurrentDelete; x != nil {
+			skip = x.Account + Separator + x.Id
+			time.Sleep(time.Duration(x.N))
+			if err := cr.Delete(x.Account, x.Id); err != nil {
+				o.Fail("CROLT_DELETE_ERROR", "%s: Delete during a work pass failed: %v", when, err)
 			}
 		}
+		if err := <-passDone; err != nil {
+			o.Fail("CROLT_WORK_ERROR", "%s: %v", when, err)
+			return
+		}
+		// (a pass takes time when jobs are slow: a firing happened at some
+		// instant between the start and the end of the pass)
+		T = time.Now()
 		after, _, err := croltSnapshot(cr)
 		if err != nil {
 			o.Fail("CROLT_DB_ERROR", "%s: %v", when, err)
 			return
 		}
 		for aid, jb := range before {
+			if aid == skip {
+				continue // deleted while the pass was running
+			}
 			ja, still := after[aid]
 			due, derr := dueOf(jb)
 			if derr != nil {
@@ -278,6 +319,10 @@ func runCrolt(c croltCase) *vlib.Outcome {
 		switch x.K {
 		case "add":
 			j := &Job{Account: x.Account, Id: x.Id, Expression: x.Sched}
+			if x.Slow {
+				j.URL = "http://slow.test/" + x.Account + "/" + x.Id
+				j.Method = "GET"
+			}
 			err := cr.Add(j)
 			if _, exists := model[aid]; exists {
 				if err != Exists {
@@ -308,6 +353,13 @@ func runCrolt(c croltCase) *vlib.Outcome {
 					delete(model, k)
 				}
 			}
+		case "deleteDuringWork":
+			xx := x
+			concurrentDelete = &xx
+			workPass(when)
+			concurrentDelete = nil
+			delete(model, aid)
+			o.Label("delete-during-work-pass")
 		case "work":
 			workPass(when)
 		case "sleep":
